@@ -44,7 +44,7 @@ extern "C" {
 #endif
 
 #define AVTP_VSS_BRIEF_HEADER_LEN   (1 * AVTP_QUADLET_SIZE)
-#define AVTP_ACF_TYPE_VSS_BRIEF     0x42
+#define AVTP_ACF_TYPE_VSS_BRIEF     0x43
 
 typedef struct {
     uint8_t header[AVTP_VSS_BRIEF_HEADER_LEN];
